@@ -140,7 +140,11 @@ func (E *Engine) proveLemma(m *SpecModule, l *Lemma) *LemmaResult {
 	}
 	ctx := E.lemmaContext(m, l)
 	head := E.header(nil)
-	lits := E.U.litDecls()
+	var caseTexts []string
+	for _, c := range cases {
+		caseTexts = append(caseTexts, c.text)
+	}
+	lits := E.U.litDeclsFor(append(caseTexts, ctx)...)
 	var wg sync.WaitGroup
 	var mu sync.Mutex
 	sem := make(chan struct{}, 16)
